@@ -17,7 +17,10 @@ Stages
   thorough: all workloads (DMRG two-site / single-site / with mixer, TEBD, TDVP two-site / single-site, ExpMPO, with
           and without truncation, pickle and HDF5); additionally every system call of the uninterrupted run is a
           crash point (HDF5: every 3rd / 5th call).
-  C18_FIXED=replace,acc,stats selects the spec constants of the proposed repairs (to validate a patched tree).
+  The constants describe the code as it is: Protocol "replace" (save under the backup name, os.replace over the
+  output file), resume data with the accumulated truncation error, is_converged() guarded against empty statistics.
+  The legacy configurations (Protocol "legacy", SavesAcc / GuardStats FALSE, safe_write off) are model-checked as
+  witnesses that TLC has to refute -- the properties are not vacuous.
 """
 import concurrent.futures as cf
 import json
@@ -29,13 +32,10 @@ import time
 
 from harness import core, tlc, tlaval, crash
 
-SPEC_INV_HOLD = ['TypeOK', 'MeasPrefixOfIdeal', 'FinalEqual', 'ResumeRuns', 'NoStuck', 'FirstCrashSafe']
+SPEC_INV_HOLD = ['TypeOK', 'MeasPrefixOfIdeal', 'FinalEqual', 'ResumeRuns', 'NoStuck', 'FirstCrashSafe',
+                 'AlwaysACompleteFile', 'NeverOnlyPartial', 'CrashedHasComplete']
 VIOL_BITS = ['AlwaysACompleteFile', 'NeverOnlyPartial', 'MeasPrefixOfIdeal', 'FinalEqual', 'ResumeRuns', 'RealNoCompleteFile']
 SPEC_INV_FILE = ['AlwaysACompleteFile', 'NeverOnlyPartial']
-
-# C18_FIXED=replace,acc,stats : validate a tree that carries the proposed repairs (see the report) against the spec
-# with the corresponding constants switched (Protocol "replace", SavesAcc, GuardStats)
-FIXED = set(x for x in os.environ.get('C18_FIXED', '').split(',') if x)
 
 # workloads (harness/crash.py: workload_params) and the shape of their engine loop
 WL = {
@@ -59,8 +59,7 @@ def consts(wl, **over):
     w = WL[wl]
     c = dict(Kind=w['kind'], NSteps=w['nsteps'], MeasAtCkpt=bool(w['meas']),
              MinSweeps=(1 if w.get('min1') else (w['nsteps'] - 1 if w['kind'] == 'iter' else 0)),
-             TruncErr=bool(w.get('trunc')), SavesAcc=('acc' in FIXED), GuardStats=('stats' in FIXED), SafeWrite=True,
-             Protocol='replace' if 'replace' in FIXED else 'repo',
+             TruncErr=bool(w.get('trunc')), SavesAcc=True, GuardStats=True, SafeWrite=True, Protocol='replace',
              MaxWrites=2, MaxCrashes=2, AllowRestart=True)
     c.update(over)
     return c
@@ -234,16 +233,16 @@ class C18:
             jobs.append(('hold', wl, consts(wl, **big), SPEC_INV_HOLD, self.quick))
             if not self.quick:
                 jobs.append(('gen', wl, consts(wl), ['TypeOK'], True))
-            if not self.quick or n < 2:
-                jobs.append(('file', wl, consts(wl, **big), SPEC_INV_FILE, False))
-        # design-level runs (once): the unsafe mode must fail (non-vacuity), the proposed repair must hold
+        # witness configurations (once): TLC has to refute each of them, otherwise the properties are vacuous
         wl0 = wls[0]
-        jobs.append(('unsafe', wl0, consts(wl0, SafeWrite=False, MaxCrashes=1), ['CrashedHasComplete'], False))
-        jobs.append(('repair', wl0, consts(wl0, Protocol='replace', MaxCrashes=3, MaxWrites=3),
-                     SPEC_INV_HOLD + SPEC_INV_FILE + ['CrashedHasComplete'], False))
-        if not self.quick:
-            jobs.append(('repair-acc', 'tebd_trunc', consts('tebd_trunc', SavesAcc=True, MaxCrashes=3),
-                         SPEC_INV_HOLD, False))
+        wi = [w for w in wls if WL[w].get('min1')] or ['dmrg2_min1']
+        wt = [w for w in wls if WL[w].get('trunc')] or ['tebd_trunc']
+        jobs.append(('witness:safe_write-off', wl0, consts(wl0, SafeWrite=False, MaxCrashes=1), ['CrashedHasComplete'], False))
+        jobs.append(('witness:legacy-protocol', wl0, consts(wl0, Protocol='legacy'), SPEC_INV_FILE, False))
+        jobs.append(('witness:legacy-single-crash', wl0, consts(wl0, Protocol='legacy', MaxCrashes=1),
+                     ['CrashedHasComplete'], False))
+        jobs.append(('witness:no-stats-guard', wi[0], consts(wi[0], GuardStats=False), ['ResumeRuns'], False))
+        jobs.append(('witness:acc-not-saved', wt[0], consts(wt[0], SavesAcc=False), ['MeasPrefixOfIdeal'], False))
         out = []
         with cf.ThreadPoolExecutor(max_workers=4) as tp:
             # one worker: breadth-first search then returns a shortest (and reproducible) counterexample
@@ -267,16 +266,15 @@ class C18:
                     raise core.MachineryError('SPEC: TypeOK violated in SimIO for %s' % wl)
                 continue
             shutil.rmtree(d, ignore_errors=True)
-            if what == 'unsafe':
-                if 'CrashedHasComplete' not in res.violated:
-                    raise core.MachineryError('SPEC: with safe_write off a single crash must be able to destroy the '
-                                              'results; SimIO does not show that (vacuous invariant?)')
-                self.notes['unsafe_mode_refuted_in'] = len(res.error_trace)
-                continue
-            if what.startswith('repair'):
-                self.notes['mc_' + what] = dict(violated=res.violated, states=res.distinct)
-                if res.violated:
-                    raise core.MachineryError('SPEC: the repaired protocol (%s) violates %s' % (what, res.violated))
+            if what.startswith('witness:'):
+                self.notes.setdefault('witness_configurations', {})[what[8:]] = dict(
+                    violated=res.violated, counterexample_length=len(res.error_trace), states=res.distinct)
+                if what == 'witness:legacy-single-crash':
+                    # (the legacy protocol survived one crash; it took a resume and a second crash to lose the results)
+                    if res.violated:
+                        raise core.MachineryError('SPEC: legacy protocol: a single crash already violates %s' % res.violated)
+                elif not res.violated:
+                    raise core.MachineryError('SPEC: witness configuration %s is not refuted by TLC (vacuous property?)' % what)
                 continue
             if res.violated:
                 candidates.append((wl, res.violated[0], res.error_trace, c))
@@ -287,7 +285,7 @@ class C18:
     def check_action_coverage(self):
         never = [a for a, (d, t) in self.ctx.coverage_actions.items() if a.startswith('Do') and t == 0]
         self.notes['actions_never_taken'] = never
-        if never and not FIXED and not self.ctx.only and not self.ctx.replay_file:
+        if never and not self.ctx.only and not self.ctx.replay_file:
             raise core.MachineryError('SimIO actions never taken in MC (vacuity): %s' % never)
 
     # ---- reference executions --------------------------------------------------------------------
@@ -528,6 +526,15 @@ class C18:
                 self.notes['kill_missed'] = self.notes.get('kill_missed', 0) + 1
             final = res['final'] or {}
             summ = final.get('summary') or {}
+            # bookkeeping for the evidence: crash points after the first completed save / of those with a complete file
+            done_save = False
+            for e in res.get('tlc_trace', []):
+                if e['op'] == 'rename' and e.get('t') == 'out' or e['op'] == 'close' and e.get('f') == 'out':
+                    done_save = True
+                if e['op'] == 'crash' and done_save:
+                    self.notes['crash_points_after_a_completed_save'] = self.notes.get('crash_points_after_a_completed_save', 0) + 1
+                    if e['out']['st'] == 'complete' or e['bak']['st'] == 'complete':
+                        self.notes['of_those_with_a_complete_file'] = self.notes.get('of_those_with_a_complete_file', 0) + 1
             # (1) resume equivalence on the real numbers: final results equal those of the uninterrupted run
             diffs = []
             if summ.get('status') == 'ok' and res['incs']:
@@ -685,7 +692,7 @@ def check(ctx):
         for wl, inv, trace, c in candidates:
             recs = [with_last(st['last'], st[st['last']['f']]['st']) if st['last']['op'] == 'write' else st['last']
                     for _, st in trace[1:]]
-            incs = normalise_ops(plan_from_ops(recs, final_crash=(inv in SPEC_INV_FILE + ['FirstCrashSafe'])), WL[wl]['kind'])
+            incs = normalise_ops(plan_from_ops(recs, final_crash=(inv in SPEC_INV_FILE + ['FirstCrashSafe', 'CrashedHasComplete'])), WL[wl]['kind'])
             # replayed on the workload TLC ran for (quick) / on every workload with these constants (thorough)
             targets = [(w, f) for (w, f) in pairs if t.rep[w] == wl]
             if quick:
@@ -738,7 +745,7 @@ def check(ctx):
                 viol = res.get('viol')
                 if viol is None:
                     continue     # rejected trace: reported above
-                confirmed = ('RealNoCompleteFile' in viol) if inv in SPEC_INV_FILE + ['FirstCrashSafe'] else \
+                confirmed = ('RealNoCompleteFile' in viol) if inv in SPEC_INV_FILE + ['FirstCrashSafe', 'CrashedHasComplete'] else \
                     (inv in viol or any(v in viol for v in ('MeasPrefixOfIdeal', 'FinalEqual', 'ResumeRuns')))
                 t.notes.setdefault('mc_counterexamples_replayed', []).append(
                     dict(workload=plan['workload'], fmt=plan['fmt'], invariant=inv, confirmed_on_real_code=confirmed))
